@@ -55,6 +55,12 @@ def gen_cases(tier, seed):
     for A in lists_a:
         yield {"check": "rows", "A": [list(r) for r in A], "Bs": "all", "lb": lb,
                "rows": [list(r) for r in rows]}
+    # rows with negative / mixed-sign entries (integer rows, not only subscripts): pairs that any positional encoding
+    # with a base taken from the largest entry maps to one number ((1,0) / (-1,1); (0,1) / (2,0) ...)
+    srows = [(1, 0), (-1, 1), (0, 1), (-1, 0)] + ([(2, 0), (0, -1)] if thorough else [])
+    ls = 3 if thorough else 2
+    for A in [list(t) for k in range(0, ls + 1) for t in itertools.product(srows, repeat=k)]:
+        yield {"check": "rows", "A": [list(r) for r in A], "Bs": "all", "lb": ls, "rows": [list(r) for r in srows]}
     # khatrirao
     maxm = 4 if thorough else 3
     maxc = 3 if thorough else 2
